@@ -223,12 +223,7 @@ func extVrtSetFile(fr *frame, args []value) value {
 			delete(i.files, name)
 		}
 	})
-	switch s := args[1].(type) {
-	case string:
-		i.files[name] = s
-	default:
-		unsupported("vrt.SetFile with symbolic content (use concrete bytes)")
-	}
+	i.files[name] = args[1]
 	return nil
 }
 
